@@ -497,6 +497,21 @@ func init() {
 		out[6] = ConstBV(8, 0x40)
 		return tuple(out, nilErr())
 	})
+	reg("github.com/nspcc-dev/neofs-sdk-go/internal/proto.isMessageNil", func(in *Interp, fr *frame, fn *ssa.Function, args []Value) Value {
+		i := args[0].(Iface)
+		if i.T == nil {
+			return TrueT
+		}
+		switch v := i.V.(type) {
+		case *Value:
+			return ConstBool(v == nil)
+		case *Map:
+			return ConstBool(v == nil)
+		case Slice:
+			return ConstBool(v.A == nil)
+		}
+		return FalseT
+	})
 	reg("strconv.Itoa", func(in *Interp, fr *frame, fn *ssa.Function, args []Value) Value {
 		t := bv(args[0])
 		if t.IsConst() {
